@@ -10,7 +10,7 @@ PyXAB/partition:
 """
 import ast
 
-from ..model import call_name, method_name
+from ..model import call_name, is_self_attr, method_name
 from ..report import AnalysisError, norm_src
 from . import _partition
 
@@ -87,9 +87,6 @@ def check_sources(ctx):
                 if isinstance(n.func, ast.Name) and n.func.id in DYNAMIC:
                     ctx.violation("R14-DYN", file, where(model, tree, n, file), norm_src(n),
                                   "dynamic feature %s() defeats the name-based analysis every rule relies on" % n.func.id, n.lineno)
-                if isinstance(n.func, ast.Name) and n.func.id in ("set", "frozenset") and n.args:
-                    ctx.violation("R14-SRC", file, where(model, tree, n, file), norm_src(n),
-                                  "builds a set: iteration order of a set of objects depends on their addresses", n.lineno)
                 # numpy random
                 if len(parts) >= 3 and parts[-2] == "random" and al.get(parts[0], "").split(".")[0] == "numpy":
                     fn = parts[-1]
@@ -102,9 +99,6 @@ def check_sources(ctx):
                         rng_sites += 1
                         ctx.ob("R14-SRC", fn in NP_RANDOM_OK, file, q, norm_src(n),
                                "draw from numpy's global generator" if fn in NP_RANDOM_OK else "unknown np.random function '%s'" % fn, n.lineno)
-            if isinstance(n, (ast.Set, ast.SetComp)):
-                ctx.violation("R14-SRC", file, where(model, tree, n, file), norm_src(n),
-                              "set display: iteration order of a set of objects depends on their addresses", n.lineno)
             if isinstance(n, ast.Attribute) and n.attr in ("__dict__", "__class__", "__hash__") and isinstance(n.ctx, ast.Load):
                 if n.attr == "__dict__":
                     ctx.violation("R14-DYN", file, where(model, tree, n, file), norm_src(n), "__dict__ access defeats the field-based analysis", n.lineno)
@@ -114,6 +108,125 @@ def check_sources(ctx):
                               "special method %s changes identity/attribute semantics assumed by the analysis" % n.name, n.lineno)
     ctx.count("R14-SRC np.random call sites in algos+partition", rng_sites, 10)
     return rng_sites
+
+
+SET_OK_METHODS = {"add", "update", "discard", "remove", "clear", "issubset", "issuperset", "isdisjoint", "__contains__",
+                  "difference_update", "intersection_update", "symmetric_difference_update"}
+SET_DERIVING = {"union", "intersection", "difference", "symmetric_difference", "copy"}
+
+
+def is_set_expr(model, e, set_names=()):
+    if isinstance(e, (ast.Set, ast.SetComp)):
+        return True
+    if isinstance(e, ast.Call) and isinstance(e.func, ast.Name) and e.func.id in ("set", "frozenset") and not shadowed(model, e.func):
+        return True
+    if isinstance(e, ast.Call) and isinstance(e.func, ast.Attribute) and e.func.attr in SET_DERIVING and is_set_expr(model, e.func.value, set_names):
+        return True
+    if isinstance(e, ast.BinOp) and isinstance(e.op, (ast.BitOr, ast.BitAnd, ast.Sub, ast.BitXor)) and \
+            (is_set_expr(model, e.left, set_names) or is_set_expr(model, e.right, set_names)):
+        return True
+    return norm_src(e) in set_names
+
+
+def order_observing_use(model, e):
+    """How the value of the set-valued expression node `e` is used: None when the use cannot observe the iteration order
+    (membership test, len, truth value, in-place update, being stored), else a description."""
+    par = model.up(e)
+    if isinstance(par, ast.Compare) and e in par.comparators and all(isinstance(o, (ast.In, ast.NotIn)) for o in par.ops):
+        return None
+    if isinstance(par, ast.Compare) and all(isinstance(o, (ast.Eq, ast.NotEq, ast.LtE, ast.GtE, ast.Lt, ast.Gt)) for o in par.ops):
+        return None         # set comparison is order-free
+    if isinstance(par, ast.Call) and e in par.args and isinstance(par.func, ast.Name) and par.func.id in ("len", "bool", "isinstance", "set", "frozenset"):
+        return None
+    if isinstance(par, ast.Call) and isinstance(par.func, ast.Attribute) and e in par.args and par.func.attr in (SET_OK_METHODS | SET_DERIVING):
+        return None         # argument of another set's update/union
+    if isinstance(par, ast.Attribute) and par.value is e:
+        if par.attr in SET_OK_METHODS or par.attr in SET_DERIVING:
+            return None
+        return "method .%s() of a set" % par.attr
+    if isinstance(par, (ast.If, ast.While, ast.IfExp)) and getattr(par, "test", None) is e:
+        return None
+    if isinstance(par, ast.UnaryOp) and isinstance(par.op, ast.Not):
+        return None
+    if isinstance(par, ast.BoolOp):
+        return order_observing_use(model, par)
+    if isinstance(par, ast.BinOp):
+        return None         # derived set: judged where it is used (is_set_expr)
+    if isinstance(par, (ast.Assign, ast.AnnAssign, ast.AugAssign)) and getattr(par, "value", None) is e:
+        return None         # stored: judged at the uses of the target
+    if isinstance(par, (ast.For, ast.comprehension)) and par.iter is e:
+        return "iterated"
+    if isinstance(par, ast.Call):
+        return "passed to %s()" % (call_name(par) or "a call")
+    if isinstance(par, ast.Return):
+        return "returned"
+    if isinstance(par, ast.Starred):
+        return "unpacked"
+    return "used in %s" % type(par).__name__
+
+
+def check_sets(ctx):
+    """R14-SRC (hash order): a set may be built and queried, but nothing may observe its iteration order - for cells and arms
+    (default hash = address) it differs between two runs of the same program."""
+    model = ctx.model
+    n_sets = [0]
+
+    def judge(file, tree, e):
+        n_sets[0] += 1
+        use = order_observing_use(model, e)
+        ctx.ob("R14-SRC", use is None, file, where(model, tree, e, file), norm_src(model.enclosing_stmt(e) or e),
+               "set is only built / queried for membership" if use is None else
+               "the set %s is %s: the iteration order of a set depends on hash values (object addresses, per-process string "
+               "hashing), which is not a function of seed, arguments and rewards" % (norm_src(e)[:60], use), e.lineno)
+
+    def holders(scope, want):
+        names = set()
+        changed = True
+        while changed:
+            changed = False
+            for a in ast.walk(scope):
+                if isinstance(a, (ast.Assign, ast.AnnAssign)) and getattr(a, "value", None) is not None and is_set_expr(model, a.value, names):
+                    for t in (a.targets if isinstance(a, ast.Assign) else [a.target]):
+                        if want(t) and norm_src(t) not in names:
+                            names.add(norm_src(t))
+                            changed = True
+        return names
+
+    for file in files(model):
+        tree = model.trees[file]
+        for e in ast.walk(tree):
+            if isinstance(e, ast.expr) and is_set_expr(model, e, ()) and not isinstance(e, ast.BinOp):
+                judge(file, tree, e)
+        for c in [x for x in ast.walk(tree) if isinstance(x, ast.ClassDef)]:
+            attrs = holders(c, lambda t: is_self_attr(t))
+            for e in ast.walk(c):
+                if isinstance(e, ast.Attribute) and isinstance(e.ctx, ast.Load) and norm_src(e) in attrs:
+                    judge(file, tree, e)
+        for f in [x for x in ast.walk(tree) if isinstance(x, ast.FunctionDef)]:
+            loc = holders(f, lambda t: isinstance(t, ast.Name))
+            for e in ast.walk(f):
+                if isinstance(e, ast.Name) and isinstance(e.ctx, ast.Load) and e.id in loc:
+                    judge(file, tree, e)
+    # positive / negative fixture: the rule must fire on iteration and stay quiet on membership, on every run
+    class _Stub:
+        def __init__(self, tree):
+            self.par = {}
+            for a in ast.walk(tree):
+                for b in ast.iter_child_nodes(a):
+                    self.par[id(b)] = a
+
+        def up(self, n):
+            return self.par.get(id(n))
+
+        def enclosing_function(self, n):
+            return None
+    fx = ast.parse("s = set()\ns.add(1)\nok = 3 in s\nfor x in s:\n    pass\nm = max(s)\n")
+    st = _Stub(fx)
+    got = [order_observing_use(st, e) for e in sorted((e for e in ast.walk(fx) if isinstance(e, ast.Name) and e.id == "s" and
+                                                        isinstance(e.ctx, ast.Load)), key=lambda e: e.lineno)]
+    if [g is None for g in got] != [True, True, False, False]:
+        raise AnalysisError("R14-SRC set-order self-check fixture no longer matches (%s)" % got)
+    return n_sets[0]
 
 
 def shadowed(model, name_node):
@@ -421,6 +534,7 @@ def run(ctx):
             for f in c.methods.values():
                 ctx.fn("%s.%s" % (c.name, f.name))
     check_sources(ctx)
+    ctx.extra["set_uses_examined"] = check_sets(ctx)
     check_isolation(ctx)
     check_mutation(ctx)
     # E5: stores performed by partition code hit fresh objects only; RNG calls are np.random.*
